@@ -1,5 +1,5 @@
 """C13 - subscription protocol: trace validation of the asynchronous core + filter validation."""
-from .. import relay
+from .. import relay, extra
 
 ASSUMPTIONS = ["asyncio-visible interleavings only (gates at query rows / notify tasks / message delivery); real thread pre-emption inside executors and the OS scheduler are not explored",
                "stored rows of a REQ, add_event outcomes and prepare() results are taken from the implementation as schedule data (tied by C01/C02/C06)"]
@@ -7,7 +7,7 @@ ASSUMPTIONS = ["asyncio-visible interleavings only (gates at query rows / notify
 
 def run(tier, seed):
     return [relay.suite_exhaustive(tier, seed, "sql", pid="C13"), relay.suite_validate(tier, seed, pid="C13"), relay.suite_churn(tier, seed, "sql", pid="C13"), relay.suite_relay(tier, seed, "sql", pid="C13"),
-            relay.suite_relay(tier, seed, "kv", pid="C13")]
+            relay.suite_relay(tier, seed, "kv", pid="C13"), extra.suite_kv_req_burst(tier, seed), extra.suite_failing_query_answered(tier, seed)]
 
 
 def replay(payload):
